@@ -627,4 +627,62 @@ func foreignKeys(r *mon.Run, ck *checker, ours *fixture, t tokset) {
 	}
 	r.Count("foreign_key.presentations", refused*3)
 	r.Count("foreign_key.sha256_alias_accepted", alias)
+
+	// Related keys: operator keys are often derived from a common stem (a
+	// deployment secret plus a per-environment suffix). A foreign key that
+	// shares a long prefix / suffix / all but one bit with the server's key is
+	// still a foreign key and must be refused like a random one.
+	var related int64
+	for _, n := range []int{16, 24, 32, 33, 48, 64, 100, 1024} {
+		base := make([]byte, n)
+		for i := range base {
+			base[i] = byte(rng.IntN(256))
+		}
+		fa := newFixture(base)
+		variants := map[string][]byte{}
+		flip := func(pos int) []byte { k := append([]byte(nil), base...); k[pos] ^= 0x01; return k }
+		variants["last-bit-flipped"] = flip(n - 1)
+		variants["first-bit-flipped"] = flip(0)
+		if n > 32 {
+			variants["byte-32-flipped(shared-32-byte-prefix)"] = flip(32)
+			variants["truncated-to-32(prefix)"] = append([]byte(nil), base[:32]...)
+			variants["last-32-bytes(suffix)"] = append([]byte(nil), base[n-32:]...)
+		}
+		variants["extended-by-zero-byte"] = append(append([]byte(nil), base...), 0)
+		variants["extended-by-suffix"] = append(append([]byte(nil), base...), []byte("-staging")...)
+		if n > 16 {
+			variants["shortened-by-one"] = append([]byte(nil), base[:n-1]...)
+		}
+		names := make([]string, 0, len(variants))
+		for k := range variants {
+			names = append(names, k)
+		}
+		sort.Strings(names)
+		for _, vn := range names {
+			vk := variants[vn]
+			if len(vk) < 16 || bytes.Equal(vk, base) {
+				continue
+			}
+			fv := newFixture(vk)
+			tv := fv.mint(r, t.M, t.ID, 7, 1, fmt.Sprintf("related-%d-%s", n, vn))
+			for _, inst := range []struct {
+				name string
+				srv  *we.Instance
+			}{{"hit", fa.hit}, {"miss", fa.miss}} {
+				o := inst.srv.Continue(we.ContFor(tv.M, tv.ID, tv.Cursor, tv.Call, 3))
+				related++
+				r.Case(fmt.Sprintf("related-key|%d|%s|%s", n, vn, inst.name))
+				if o.Accepted() || o.Panic != "" || !o.Refused4xx() || len(o.UserEvents()) > 0 {
+					r.Violation("accepted:cursor:foreign-key:related:"+vn,
+						fmt.Sprintf("tokens minted under a %d-byte key that is the server's %d-byte key %s were not refused cleanly (%s path): %s", len(vk), n, vn, inst.name, o.Refusal()),
+						map[string]any{"server_key_b64": base64.StdEncoding.EncodeToString(base), "foreign_key_b64": base64.StdEncoding.EncodeToString(vk),
+							"cursor": string(tv.Cursor), "call": string(tv.Call), "obs": o})
+				} else {
+					ck.uni.add(o.Refusal(), fmt.Sprintf("cursor/foreign-key/related len %d %s", n, vn))
+					r.Class("foreign-key-refused")
+				}
+			}
+		}
+	}
+	r.Count("foreign_key.related_presentations", related)
 }
